@@ -427,9 +427,9 @@ Qed.
 Definition isdig (c : Z) : Prop := 48 <= c <= 57.
 Definition dstep (a c : Z) : Z := a * 10 + (c - 48).
 
-(* what may follow a value in printed text: nothing, or one of , ] } newline *)
+(* what may follow a value: nothing, or one of , ] } newline space tab CR *)
 Definition fol (rest : list Z) : Prop :=
-  match rest with [] => True | c :: _ => c = 44 \/ c = 93 \/ c = 125 \/ c = 10 end.
+  match rest with [] => True | c :: _ => c = 44 \/ c = 93 \/ c = 125 \/ c = 10 \/ c = 32 \/ c = 9 \/ c = 13 end.
 
 Lemma dec_pos_app : forall f v acc, 0 <= v -> dec_pos f v acc = dec_pos f v [] ++ acc.
 Proof. intros. rewrite (dec_pos_spec f v acc), (dec_pos_spec f v []) by assumption. rewrite app_nil_r. reflexivity. Qed.
@@ -483,7 +483,7 @@ Lemma fol_nodigit : forall base rest a k, base <= 36 -> fol rest -> ll_digits ba
 Proof.
   intros base rest a k Hb H. destruct rest as [|c r]; [reflexivity|]. cbn [fol] in H. cbn [ll_digits].
   assert (Hd : digit_val base c = -1).
-  { unfold digit_val. destruct H as [ -> | [ -> | [ -> | -> ]]]; cbn [Z.leb Z.compare Pos.compare Pos.compare_cont andb];
+  { unfold digit_val. destruct H as [ -> | [ -> | [ -> | [ -> | [ -> | [ -> | -> ]]]]]]; cbn [Z.leb Z.compare Pos.compare Pos.compare_cont andb];
       replace (99 <? base) with false by lia; reflexivity. }
   rewrite Hd. reflexivity.
 Qed.
@@ -502,7 +502,7 @@ Proof.
     cbn [hd0 tl at0 nth Z.eqb Pos.eqb].
     assert (Hx : (at0 (48 :: rest) 1 =? 120) || (at0 (48 :: rest) 1 =? 88) = false).
     { destruct rest as [|c r]; [reflexivity|]. cbn [at0 nth]. cbn [fol] in Hf.
-      destruct Hf as [ -> | [ -> | [ -> | -> ]]]; reflexivity. }
+      destruct Hf as [ -> | [ -> | [ -> | [ -> | [ -> | [ -> | -> ]]]]]]; reflexivity. }
     cbn [at0 nth] in Hx. rewrite Hx. cbn [ll_digits]. change (digit_val 8 48) with 0. cbv zeta. change (0 <? 0) with false. cbv iota.
     rewrite (fol_nodigit 8 rest) by (lia || exact Hf). reflexivity. }
   assert (Hcore : forall m, 0 < m <= 2 ^ 63 -> forall (neg : bool) ks,
@@ -577,7 +577,7 @@ Section ParseNum.
     rewrite Hl. cbn [negb andb orb]. rewrite skipn_app_len.
     assert (Hr : (hd0 rest =? 46) || (hd0 rest =? 101) || (hd0 rest =? 69) || (hd0 rest =? 45) || (hd0 rest =? 43) = false).
     { destruct rest as [|x r]; [reflexivity|]. cbn [fol] in Hf. cbn [hd0].
-      destruct Hf as [ -> | [ -> | [ -> | -> ]]]; reflexivity. }
+      destruct Hf as [ -> | [ -> | [ -> | [ -> | [ -> | [ -> | -> ]]]]]]; reflexivity. }
     rewrite Hr. reflexivity.
   Qed.
 End ParseNum.
@@ -643,8 +643,11 @@ Proof. intros. apply (lor_acc' 55296 10 1024); try reflexivity; lia. Qed.
 Lemma lor_dc00 : forall y, 0 <= y < 1024 -> Z.lor 56320 y = 56320 + y.
 Proof. intros. apply (lor_acc' 56320 10 1024); try reflexivity; lia. Qed.
 
+Lemma item_rfc_ok : forall items, Forall item_rfc items -> Forall item_ok items.
+Proof. intros items H. eapply Forall_impl; [|exact H]. intros i [Hi _]. exact Hi. Qed.
+
 Lemma wstr_items : forall fuel pf s t, bytes_ok s -> (length s < fuel)%nat -> wstr fuel pf s = Ok t ->
-  exists items, Forall item_ok items /\ t = render_all items /\ denote_all items = s.
+  exists items, Forall item_rfc items /\ t = render_all items /\ denote_all items = s.
 Proof.
   induction fuel as [|f IH]; intros pf s t Hb Hf H; [lia|].
   rewrite wstr_S in H. destruct s as [|ch r].
@@ -653,32 +656,32 @@ Proof.
   (* the common continuation *)
   assert (Hcont : forall pre s' i, bytes_ok s' -> (length s' < f)%nat ->
             match wstr f pf s' with Ok t0 => Ok (pre ++ t0) | Err e => Err e end = Ok t ->
-            item_ok i -> render i = pre -> denote i ++ s' = ch :: r ->
-            exists items, Forall item_ok items /\ t = render_all items /\ denote_all items = ch :: r).
+            item_rfc i -> render i = pre -> denote i ++ s' = ch :: r ->
+            exists items, Forall item_rfc items /\ t = render_all items /\ denote_all items = ch :: r).
   { intros pre s' i Hb' Hl' Hw Hi Hre Hde. destruct (wstr f pf s') as [t0|e] eqn:Ew; [|discriminate].
     injection Hw as <-. destruct (IH pf s' t0 Hb' Hl' Ew) as (items & Hok & Ht & Hd).
     exists (i :: items). split; [constructor; assumption|]. unfold render_all, denote_all in *. cbn [flat_map].
     rewrite Hre, Hd, <- Ht. split; [reflexivity|exact Hde]. }
   destruct ((ch =? 34) || (ch =? 92)) eqn:E1.
-  { apply (Hcont _ _ (SEsc ch) Hr ltac:(lia) H); [cbn; lia|reflexivity|].
+  { apply (Hcont _ _ (SEsc ch) Hr ltac:(lia) H); [split; [cbn; lia|exact I]|reflexivity|].
     cbn [denote]. unfold esc_byte. assert (ch = 34 \/ ch = 92) as [-> | ->] by lia; reflexivity. }
   destruct ((8 <=? ch) && (ch <=? 13) && negb (ch =? 11)) eqn:E2.
   { assert (Hc : ch = 8 \/ ch = 9 \/ ch = 10 \/ ch = 12 \/ ch = 13) by lia.
     destruct Hc as [ -> | [ -> | [ -> | [ -> | -> ]]]].
-    - apply (Hcont _ _ (SEsc 98) Hr ltac:(lia) H); [cbn; lia|reflexivity|reflexivity].
-    - apply (Hcont _ _ (SEsc 116) Hr ltac:(lia) H); [cbn; lia|reflexivity|reflexivity].
-    - apply (Hcont _ _ (SEsc 110) Hr ltac:(lia) H); [cbn; lia|reflexivity|reflexivity].
-    - apply (Hcont _ _ (SEsc 102) Hr ltac:(lia) H); [cbn; lia|reflexivity|reflexivity].
-    - apply (Hcont _ _ (SEsc 114) Hr ltac:(lia) H); [cbn; lia|reflexivity|reflexivity]. }
+    - apply (Hcont _ _ (SEsc 98) Hr ltac:(lia) H); [split; [cbn; lia|exact I]|reflexivity|reflexivity].
+    - apply (Hcont _ _ (SEsc 116) Hr ltac:(lia) H); [split; [cbn; lia|exact I]|reflexivity|reflexivity].
+    - apply (Hcont _ _ (SEsc 110) Hr ltac:(lia) H); [split; [cbn; lia|exact I]|reflexivity|reflexivity].
+    - apply (Hcont _ _ (SEsc 102) Hr ltac:(lia) H); [split; [cbn; lia|exact I]|reflexivity|reflexivity].
+    - apply (Hcont _ _ (SEsc 114) Hr ltac:(lia) H); [split; [cbn; lia|exact I]|reflexivity|reflexivity]. }
   destruct (ch <? 32) eqn:E3.
   { destruct (u_esc_item ch ltac:(lia)) as (h1 & h2 & h3 & h4 & Hre & I1 & I2 & I3 & I4 & Hcp).
     apply (Hcont _ _ (SU h1 h2 h3 h4) Hr ltac:(lia) H).
-    - cbn [item_ok]. rewrite Hcp. repeat (split; [assumption|]). lia.
+    - split; [|exact I]. cbn [item_ok]. rewrite Hcp. repeat (split; [assumption|]). lia.
     - symmetry. exact Hre.
     - cbn [denote]. rewrite Hcp. unfold utf8_enc. replace (ch <? 128) with true by lia. reflexivity. }
   destruct (isprint ch) eqn:E4.
   { pose proof (isprint_range ch ltac:(lia) E4) as Hp.
-    apply (Hcont _ _ (SRaw ch) Hr ltac:(lia) H); [cbn; lia|reflexivity|reflexivity]. }
+    apply (Hcont _ _ (SRaw ch) Hr ltac:(lia) H); [split; cbn; lia|reflexivity|reflexivity]. }
   destruct (has pf JBL_PRINT_CODEPOINTS) eqn:E5.
   - destruct (iterate (ch :: r)) as [[cp sz]|] eqn:Eit; [|discriminate].
     destruct (iterate_inv (ch :: r) cp sz Hb ltac:(discriminate) Eit) as (Hsc & Hsz & Henc).
@@ -695,17 +698,17 @@ Proof.
       destruct (u_esc_item (55296 + (c' / 1024) mod 1024) ltac:(lia)) as (h1 & h2 & h3 & h4 & Hre & I1 & I2 & I3 & I4 & Hcp).
       destruct (u_esc_item (56320 + c' mod 1024) ltac:(lia)) as (l1 & l2 & l3 & l4 & Hre2 & J1 & J2 & J3 & J4 & Hcp2).
       apply (Hcont _ _ (SPair h1 h2 h3 h4 l1 l2 l3 l4) Hb' Hl' H).
-      * cbn [item_ok]. rewrite Hcp, Hcp2. repeat (split; [assumption|]). lia.
+      * split; [|exact I]. cbn [item_ok]. rewrite Hcp, Hcp2. repeat (split; [assumption|]). lia.
       * rewrite Hre, Hre2. reflexivity.
       * cbn [denote]. rewrite Hcp, Hcp2.
         replace (65536 + (55296 + (c' / 1024) mod 1024 - 55296) * 1024 + (56320 + c' mod 1024 - 56320)) with cp by (unfold c'; lia).
         exact Hsplit.
     + destruct (u_esc_item cp ltac:(lia)) as (h1 & h2 & h3 & h4 & Hre & I1 & I2 & I3 & I4 & Hcp).
       apply (Hcont _ _ (SU h1 h2 h3 h4) Hb' Hl' H).
-      * cbn [item_ok]. rewrite Hcp. repeat (split; [assumption|]). lia.
+      * split; [|exact I]. cbn [item_ok]. rewrite Hcp. repeat (split; [assumption|]). lia.
       * symmetry. exact Hre.
       * cbn [denote]. rewrite Hcp. exact Hsplit.
-  - apply (Hcont _ _ (SRaw ch) Hr ltac:(lia) H); [cbn; lia|reflexivity|reflexivity].
+  - apply (Hcont _ _ (SRaw ch) Hr ltac:(lia) H); [split; cbn; lia|reflexivity|reflexivity].
 Qed.
 
 (* without the code-point flag the string printer cannot fail *)
@@ -810,7 +813,7 @@ Proof. reflexivity. Qed.
 
 Definition vws (w : list Z) : Prop := Forall (fun c => is_vws c = true) w.
 (* whitespace the key scanner skips: bytes 1..32 and the comma *)
-Definition kws (w : list Z) : Prop := Forall (fun c => c = 32 \/ c = 10 \/ c = 44) w.
+Definition kws (w : list Z) : Prop := Forall (fun c => c = 32 \/ c = 10 \/ c = 44 \/ c = 9 \/ c = 13) w.
 
 Lemma skip_vws_app : forall w c l, vws w -> is_vws c = false -> skip_vws (w ++ c :: l) = c :: l.
 Proof.
@@ -824,13 +827,13 @@ Proof. intro n. unfold rep. induction (Z.to_nat n); cbn [repeat]; constructor; [
 Lemma rep_kws : forall n, kws (rep 32 n).
 Proof. intro n. unfold rep. induction (Z.to_nat n); cbn [repeat]; constructor; [left; reflexivity|assumption]. Qed.
 Lemma kws_vws : forall w, kws w -> vws w.
-Proof. intros w H. induction H as [|c w Hc Hw IH]; constructor; [|exact IH]. destruct Hc as [ -> | [ -> | -> ]]; reflexivity. Qed.
+Proof. intros w H. induction H as [|c w Hc Hw IH]; constructor; [|exact IH]. destruct Hc as [ -> | [ -> | [ -> | [ -> | -> ]]]]; reflexivity. Qed.
 
 Lemma parse_key_skip : forall w l, kws w -> parse_key (w ++ l) = parse_key l.
 Proof.
   induction w as [|x w IH]; intros l Hw; [reflexivity|].
   inversion Hw as [|? ? Hx Hw']; subst. cbn [app parse_key].
-  destruct Hx as [ -> | [ -> | -> ]]; cbn; apply IH; assumption.
+  destruct Hx as [ -> | [ -> | [ -> | [ -> | -> ]]]]; cbn; apply IH; assumption.
 Qed.
 
 (* ---------- strings and keys *)
@@ -847,7 +850,7 @@ Lemma body_roundtrip : forall pf s body rest, bytes_ok s -> wstr (S (length s)) 
 Proof.
   intros pf s body rest Hb Hw.
   destruct (wstr_items (S (length s)) pf s body Hb (Nat.lt_succ_diag_r _) Hw) as (items & Hok & -> & <-).
-  exact (unescape_correct items rest Hok).
+  exact (unescape_correct items rest (item_rfc_ok _ Hok)).
 Qed.
 
 Lemma parse_string_print : forall pf s body rest, bytes_ok s -> wstr (S (length s)) pf s = Ok body ->
@@ -1001,7 +1004,7 @@ Section RoundTrip2.
   Lemma kws_app : forall a b, kws a -> kws b -> kws (a ++ b).
   Proof. intros. apply Forall_app. split; assumption. Qed.
   Lemma sepc_kws : forall A (r : list A), kws (sepc r).
-  Proof. intros A r. destruct r; [apply Forall_nil|apply Forall_cons; [right; right; reflexivity|apply Forall_nil]]. Qed.
+  Proof. intros A r. destruct r; [apply Forall_nil|apply Forall_cons; [right; right; left; reflexivity|apply Forall_nil]]. Qed.
 
   Section Loops.
     Variable n : nat.
@@ -1336,3 +1339,360 @@ Proof.
                        (zseq 0 (Z.to_nat 128)) = true) by (vm_compute; reflexivity).
   exact (range_forall _ _ Hs b Hb).
 Qed.
+
+(* ================================================================ (3) every text of the reference grammar is parsed to the value it denotes *)
+Lemma ws_vws : forall w, ws w -> vws w.
+Proof. intros w H. induction H as [|c w Hc Hw IH]; constructor; [|exact IH]. destruct Hc as [ -> | [ -> | [ -> | -> ]]]; reflexivity. Qed.
+Lemma ws_kws : forall w, ws w -> kws w.
+Proof. intros w H. induction H as [|c w Hc Hw IH]; constructor; [|exact IH]. destruct Hc as [ -> | [ -> | [ -> | -> ]]]; auto 6. Qed.
+Lemma vws_app : forall a b, vws a -> vws b -> vws (a ++ b).
+Proof. intros. apply Forall_app. split; assumption. Qed.
+
+Lemma skip_ws32_app : forall w c l, ws w -> 32 < c -> skip_ws32 (w ++ c :: l) = c :: l.
+Proof.
+  induction w as [|x w IH]; intros c l Hw Hc.
+  - cbn [app skip_ws32]. unfold is_ws32. replace (c <=? 32) with false by lia. rewrite andb_false_r. reflexivity.
+  - inversion Hw as [|? ? Hx Hw']; subst. cbn [app skip_ws32].
+    destruct Hx as [ -> | [ -> | [ -> | -> ]]]; cbn; apply IH; assumption.
+Qed.
+
+Lemma fol_ws_then : forall w c l, ws w -> (c = 44 \/ c = 93 \/ c = 125) -> fol (w ++ c :: l).
+Proof.
+  intros w c l Hw Hc. destruct w as [|x w]; cbn [app fol].
+  - destruct Hc as [ -> | [ -> | -> ]]; auto.
+  - inversion Hw as [|? ? Hx _]; subst. destruct Hx as [ -> | [ -> | [ -> | -> ]]]; auto 8.
+Qed.
+
+Lemma parse_string_items : forall items rest, Forall item_ok items ->
+  parse_string (render_all items ++ 34 :: rest) = Ok (Some (JStr (denote_all items)), rest).
+Proof.
+  intros items rest Hok. destruct (unescape_correct items rest Hok) as [H1 H2].
+  unfold parse_string. rewrite H1. destruct (Z.of_nat (length (denote_all items)) =? 0) eqn:E.
+  - assert (Hnil : denote_all items = []).
+    { destruct (denote_all items); [reflexivity|exfalso; apply Z.eqb_eq in E; cbn [length] in E; lia]. }
+    rewrite Hnil. reflexivity.
+  - rewrite H2. rewrite Z.eqb_refl. reflexivity.
+Qed.
+
+Lemma key_body_items : forall items w rest, Forall item_ok items -> ws w ->
+  key_body (render_all items ++ 34 :: w ++ 58 :: rest) = Ok (Some (denote_all items), rest).
+Proof.
+  intros items w rest Hok Hw. destruct (unescape_correct items (w ++ 58 :: rest) Hok) as [H1 H2].
+  unfold key_body. rewrite H1, H2. rewrite Z.eqb_refl. cbn [negb].
+  rewrite skip_ws32_app by (assumption || lia). reflexivity.
+Qed.
+
+Lemma strtoll_negzero : forall rest, fol rest -> strtoll0 ([45; 48] ++ rest) = (0, 2%nat, false).
+Proof.
+  intros rest Hf. cbn [app]. unfold strtoll0.
+  cbn [skip_space is_space Z.leb Z.eqb Z.compare andb orb Pos.compare Pos.compare_cont Pos.eqb hd0 tl].
+  assert (Hx : (at0 (48 :: rest) 1 =? 120) || (at0 (48 :: rest) 1 =? 88) = false).
+  { destruct rest as [|c r]; [reflexivity|]. cbn [at0 nth]. cbn [fol] in Hf.
+    destruct Hf as [ -> | [ -> | [ -> | [ -> | [ -> | [ -> | -> ]]]]]]; reflexivity. }
+  cbn [at0 nth] in Hx. cbn [at0 nth]. rewrite Hx. cbn [ll_digits]. change (digit_val 8 48) with 0. cbv zeta.
+  change (0 <? 0) with false. cbv iota.
+  rewrite (fol_nodigit 8 rest) by (lia || exact Hf). reflexivity.
+Qed.
+
+Section Grammar.
+  Variable ora : list Z -> Z * nat * bool.
+
+  Lemma int_tok_parse : forall t n rest, int_tok t n -> fol rest ->
+    parse_number ora (t ++ rest) = Ok (Some (JI64 n), rest) /\ (- 2 ^ 63 <= n < 2 ^ 63) /\
+    exists c t', t = c :: t' /\ (c = 45 \/ isdig c).
+  Proof.
+    intros t n rest Ht Hf. destruct Ht as [n Hn|].
+    - split; [apply parse_number_dec; assumption|]. split; [exact Hn|]. apply dec_nonempty; exact Hn.
+    - split; [|split; [lia|eauto]].
+      unfold parse_number. rewrite strtoll_negzero by exact Hf. cbn [app hd0 at0 nth skipn Nat.eqb negb andb orb Z.eqb Pos.eqb].
+      assert (Hr : (hd0 rest =? 46) || (hd0 rest =? 101) || (hd0 rest =? 69) || (hd0 rest =? 45) || (hd0 rest =? 43) = false).
+      { destruct rest as [|x r]; [reflexivity|]. cbn [fol] in Hf. cbn [hd0].
+        destruct Hf as [ -> | [ -> | [ -> | [ -> | [ -> | [ -> | -> ]]]]]]; reflexivity. }
+      rewrite Hr. reflexivity.
+  Qed.
+
+  Lemma denotes_first : forall t v, denotes t v -> exists c t', t = c :: t' /\ first_ok c.
+  Proof.
+    intros t v H. unfold first_ok. destruct H; try (eexists; eexists; split; [reflexivity|]; auto 10; fail).
+    destruct H as [n Hn|].
+    - destruct (dec_nonempty n Hn) as (c & t' & -> & [ -> | Hd ]); eauto 12.
+    - eauto 12.
+  Qed.
+
+  Lemma obj_end : forall f lvl w rest acc, kws w ->
+    parse_obj ora (S f) lvl (w ++ 125 :: rest) acc = Ok (Some (JObj acc), rest).
+  Proof.
+    intros f lvl w rest acc Hw. rewrite parse_obj_S. rewrite parse_key_skip by exact Hw. cbn. reflexivity.
+  Qed.
+
+  Definition Pd (t : list Z) (v : jval) : Prop :=
+    forall lvl fuel w rest, vws w -> fol rest -> 0 <= lvl -> lvl + depth v <= JBL_MAX_NESTING_LEVEL ->
+      (2 * jsize v + 1 <= fuel)%nat -> parse_value ora fuel lvl (w ++ t ++ rest) = Ok (Some v, rest).
+  Definition Pe (ts : list Z) (l : list jval) : Prop :=
+    forall lvl fuel w rest acc, vws w -> 0 <= lvl ->
+      lvl + 1 + fold_right (fun x a => Z.max (depth x) a) 0 l <= JBL_MAX_NESTING_LEVEL ->
+      (2 * fold_right (fun x a => jsize x + a) 0 l + 2 <= fuel)%nat ->
+      parse_arr ora fuel lvl (w ++ ts ++ 93 :: rest) acc = Ok (Some (JArr (acc ++ l)), rest).
+  Definition Pm (ts : list Z) (l : list (list Z * jval)) : Prop :=
+    forall lvl fuel w rest acc, kws w -> 0 <= lvl ->
+      lvl + 1 + fold_right (fun kx a => Z.max (let '(_, x) := kx in depth x) a) 0 l <= JBL_MAX_NESTING_LEVEL ->
+      (2 * fold_right (fun kx a => (let '(_, x) := kx in jsize x) + a) 0 l + 2 <= fuel)%nat ->
+      parse_obj ora fuel lvl (w ++ ts ++ 125 :: rest) acc = Ok (Some (JObj (acc ++ l)), rest).
+
+  Lemma depth_nonneg : forall v, 0 <= depth v.
+  Proof.
+    destruct v; cbn [depth]; try lia.
+    - pose proof (fold_max_nonneg _ depth items). lia.
+    - pose proof (fold_max_nonneg _ (fun kx : list Z * jval => let '(_, x) := kx in depth x) members). lia.
+  Qed.
+
+  Ltac enter lvl :=
+    match goal with |- parse_value _ ?fuel _ _ = _ => destruct fuel as [|f]; [cbn [jsize] in *; lia|] end;
+    rewrite parse_value_S; replace (lvl >? JBL_MAX_NESTING_LEVEL) with false by lia; cbv zeta.
+
+  Lemma grammar_all :
+    (forall t v, denotes t v -> Pd t v) /\ (forall ts l, elems ts l -> Pe ts l) /\ (forall ts l, members ts l -> Pm ts l).
+  Proof.
+    apply denotes_mutind.
+    - (* null *) intros lvl fuel w rest Hw Hf Hl Hd Hfu. cbn [depth] in Hd. enter lvl.
+      cbn [app]. rewrite skip_vws_app by (assumption || reflexivity). reflexivity.
+    - intros lvl fuel w rest Hw Hf Hl Hd Hfu. cbn [depth] in Hd. enter lvl.
+      cbn [app]. rewrite skip_vws_app by (assumption || reflexivity). reflexivity.
+    - intros lvl fuel w rest Hw Hf Hl Hd Hfu. cbn [depth] in Hd. enter lvl.
+      cbn [app]. rewrite skip_vws_app by (assumption || reflexivity). reflexivity.
+    - (* integer *) intros t n Ht lvl fuel w rest Hw Hf Hl Hd Hfu. cbn [depth] in Hd. enter lvl.
+      destruct (int_tok_parse t n rest Ht Hf) as (Hnum & Hn & c & t' & -> & Hc).
+      cbn [app]. rewrite skip_vws_app; [|assumption|unfold is_vws, isdig in *; lia].
+      change (c :: t' ++ rest) with ((c :: t') ++ rest). unfold isdig in Hc.
+      replace (c =? 0) with false by lia. replace (c =? 110) with false by lia. replace (c =? 116) with false by lia.
+      replace (c =? 102) with false by lia. replace (c =? 39) with false by lia. replace (c =? 34) with false by lia.
+      replace (c =? 123) with false by lia. replace (c =? 91) with false by lia. replace (c =? 93) with false by lia.
+      replace ((c =? 46) || (c =? 45) || ((48 <=? c) && (c <=? 57))) with true by lia.
+      exact Hnum.
+    - (* string *) intros items Hit lvl fuel w rest Hw Hf Hl Hd Hfu. cbn [depth] in Hd. enter lvl.
+      cbn [app]. rewrite skip_vws_app by (assumption || reflexivity). cbn [Z.eqb Pos.eqb].
+      rewrite <- app_assoc. cbn [app]. apply parse_string_items. apply item_rfc_ok; exact Hit.
+    - (* [] *) intros w0 Hw0 lvl fuel w rest Hw Hf Hl Hd Hfu. cbn [depth fold_right jsize] in *. enter lvl.
+      cbn [app]. rewrite skip_vws_app by (assumption || reflexivity). cbn [Z.eqb Pos.eqb].
+      rewrite <- app_assoc. cbn [app]. destruct f as [|[|f']]; [lia|lia|].
+      apply (arr_end ora (fun _ => [])); [apply ws_vws; exact Hw0|lia].
+    - (* [ elems ] *) intros ts l He IHe lvl fuel w rest Hw Hf Hl Hd Hfu. cbn [depth jsize] in *.
+      pose proof (fold_max_nonneg _ depth l) as Hml. enter lvl.
+      cbn [app]. rewrite skip_vws_app by (assumption || reflexivity). cbn [Z.eqb Pos.eqb].
+      rewrite <- app_assoc. cbn [app].
+      apply (IHe lvl f [] rest []); [constructor|assumption|lia|lia].
+    - (* {} *) intros w0 Hw0 lvl fuel w rest Hw Hf Hl Hd Hfu. cbn [depth fold_right jsize] in *. enter lvl.
+      cbn [app]. rewrite skip_vws_app by (assumption || reflexivity). cbn [Z.eqb Pos.eqb].
+      rewrite <- app_assoc. cbn [app]. destruct f as [|f']; [lia|].
+      apply obj_end. apply ws_kws; exact Hw0.
+    - (* { members } *) intros ts l Hm IHm lvl fuel w rest Hw Hf Hl Hd Hfu. cbn [depth jsize] in *.
+      pose proof (fold_max_nonneg _ (fun kx : list Z * jval => let '(_, x) := kx in depth x) l) as Hml. enter lvl.
+      cbn [app]. rewrite skip_vws_app by (assumption || reflexivity). cbn [Z.eqb Pos.eqb].
+      rewrite <- app_assoc. cbn [app].
+      apply (IHm lvl f [] rest []); [constructor|assumption|lia|lia].
+    - (* one element *) intros w1 t v w2 Hw1 Hd IHd Hw2 lvl fuel w rest acc Hw Hl Hdp Hfu.
+      cbn [fold_right] in *. pose proof (jsize_pos v) as Hjp. pose proof (depth_nonneg v) as Hdv.
+      destruct fuel as [|f]; [lia|]. rewrite parse_arr_S.
+      replace (w ++ (w1 ++ t ++ w2) ++ 93 :: rest) with ((w ++ w1) ++ t ++ (w2 ++ 93 :: rest))
+        by (rewrite <- !app_assoc; reflexivity).
+      rewrite (IHd (lvl + 1) f (w ++ w1) (w2 ++ 93 :: rest)); try lia.
+      2: { apply vws_app; [assumption|apply ws_vws; assumption]. }
+      2: { apply fol_ws_then; auto. }
+      cbv zeta. destruct w2 as [|c2 w2'].
+      + cbn [app hd0 tl]. rewrite Z.eqb_refl. reflexivity.
+      + inversion Hw2 as [|? ? Hc2 Hw2']; subst.
+        assert (Hh : hd0 ((c2 :: w2') ++ 93 :: rest) =? 93 = false).
+        { cbn [app hd0]. destruct Hc2 as [ -> | [ -> | [ -> | -> ]]]; reflexivity. }
+        rewrite Hh. destruct f as [|[|f']]; [lia|lia|].
+        apply (arr_end ora (fun _ => [])); [apply ws_vws; exact Hw2|lia].
+    - (* element , elems *) intros w1 t v w2 ts l Hw1 Hd IHd Hw2 He IHe lvl fuel w rest acc Hw Hl Hdp Hfu.
+      cbn [fold_right] in *. pose proof (jsize_pos v) as Hjp. pose proof (depth_nonneg v) as Hdv.
+      pose proof (fold_max_nonneg _ depth l) as Hml.
+      destruct fuel as [|f]; [lia|]. rewrite parse_arr_S.
+      replace (w ++ (w1 ++ t ++ w2 ++ 44 :: ts) ++ 93 :: rest) with ((w ++ w1) ++ t ++ (w2 ++ 44 :: ts ++ 93 :: rest))
+        by (rewrite <- !app_assoc; cbn [app]; reflexivity).
+      rewrite (IHd (lvl + 1) f (w ++ w1) (w2 ++ 44 :: ts ++ 93 :: rest)); try lia.
+      2: { apply vws_app; [assumption|apply ws_vws; assumption]. }
+      2: { apply fol_ws_then; auto. }
+      cbv zeta.
+      assert (Hh : hd0 (w2 ++ 44 :: ts ++ 93 :: rest) =? 93 = false).
+      { destruct w2 as [|c2 w2']; [reflexivity|]. inversion Hw2 as [|? ? Hc2 _]; subst. cbn [app hd0].
+        destruct Hc2 as [ -> | [ -> | [ -> | -> ]]]; reflexivity. }
+      rewrite Hh.
+      replace (w2 ++ 44 :: ts ++ 93 :: rest) with ((w2 ++ [44]) ++ ts ++ 93 :: rest) by (rewrite <- app_assoc; reflexivity).
+      rewrite (IHe lvl f (w2 ++ [44]) rest (acc ++ [v])); try lia.
+      + rewrite <- app_assoc. reflexivity.
+      + apply vws_app; [apply ws_vws; assumption|repeat constructor].
+    - (* one member *) intros w1 items w2 w3 t v w4 Hw1 Hit Hw2 Hw3 Hd IHd Hw4 lvl fuel w rest acc Hw Hl Hdp Hfu.
+      cbn [fold_right] in *. pose proof (jsize_pos v) as Hjp. pose proof (depth_nonneg v) as Hdv.
+      destruct fuel as [|f]; [lia|]. rewrite parse_obj_S.
+      replace (w ++ (w1 ++ (34 :: render_all items ++ [34]) ++ w2 ++ 58 :: w3 ++ t ++ w4) ++ 125 :: rest)
+        with ((w ++ w1) ++ 34 :: render_all items ++ 34 :: w2 ++ 58 :: (w3 ++ t ++ (w4 ++ 125 :: rest))).
+      2: { repeat (rewrite <- ?app_assoc; cbn [app]; f_equal); reflexivity. }
+      rewrite parse_key_skip by (apply kws_app; [assumption|apply ws_kws; assumption]).
+      cbn [parse_key]. cbn [Z.eqb Pos.eqb].
+      rewrite key_body_items by (try apply item_rfc_ok; assumption).
+      destruct (denotes_first t v Hd) as (c0 & t0 & -> & Hc0).
+      destruct (first_ok_facts ora (fun _ => []) c0 Hc0) as (_ & _ & H125 & _ & _ & _).
+      assert (Hh : hd0 (w3 ++ (c0 :: t0) ++ w4 ++ 125 :: rest) =? 125 = false).
+      { destruct w3 as [|c3 w3']; cbn [app hd0]; [lia|]. inversion Hw3 as [|? ? Hc3 _]; subst.
+        destruct Hc3 as [ -> | [ -> | [ -> | -> ]]]; reflexivity. }
+      rewrite Hh.
+      rewrite (IHd (lvl + 1) f w3 (w4 ++ 125 :: rest)); try lia.
+      2: { apply ws_vws; assumption. }
+      2: { apply fol_ws_then; auto. }
+      cbv zeta. destruct f as [|f']; [lia|].
+      apply obj_end. apply ws_kws; assumption.
+    - (* member , members *)
+      intros w1 items w2 w3 t v w4 ts l Hw1 Hit Hw2 Hw3 Hd IHd Hw4 Hm IHm lvl fuel w rest acc Hw Hl Hdp Hfu.
+      cbn [fold_right] in *. pose proof (jsize_pos v) as Hjp. pose proof (depth_nonneg v) as Hdv.
+      pose proof (fold_max_nonneg _ (fun kx : list Z * jval => let '(_, x) := kx in depth x) l) as Hml.
+      destruct fuel as [|f]; [lia|]. rewrite parse_obj_S.
+      replace (w ++ (w1 ++ (34 :: render_all items ++ [34]) ++ w2 ++ 58 :: w3 ++ t ++ w4 ++ 44 :: ts) ++ 125 :: rest)
+        with ((w ++ w1) ++ 34 :: render_all items ++ 34 :: w2 ++ 58 :: (w3 ++ t ++ (w4 ++ 44 :: ts ++ 125 :: rest))).
+      2: { repeat (rewrite <- ?app_assoc; cbn [app]; f_equal); reflexivity. }
+      rewrite parse_key_skip by (apply kws_app; [assumption|apply ws_kws; assumption]).
+      cbn [parse_key]. cbn [Z.eqb Pos.eqb].
+      rewrite key_body_items by (try apply item_rfc_ok; assumption).
+      destruct (denotes_first t v Hd) as (c0 & t0 & -> & Hc0).
+      destruct (first_ok_facts ora (fun _ => []) c0 Hc0) as (_ & _ & H125 & _ & _ & _).
+      assert (Hh : hd0 (w3 ++ (c0 :: t0) ++ w4 ++ 44 :: ts ++ 125 :: rest) =? 125 = false).
+      { destruct w3 as [|c3 w3']; cbn [app hd0]; [lia|]. inversion Hw3 as [|? ? Hc3 _]; subst.
+        destruct Hc3 as [ -> | [ -> | [ -> | -> ]]]; reflexivity. }
+      rewrite Hh.
+      rewrite (IHd (lvl + 1) f w3 (w4 ++ 44 :: ts ++ 125 :: rest)); try lia.
+      2: { apply ws_vws; assumption. }
+      2: { apply fol_ws_then; auto. }
+      cbv zeta.
+      replace (w4 ++ 44 :: ts ++ 125 :: rest) with ((w4 ++ [44]) ++ ts ++ 125 :: rest) by (rewrite <- app_assoc; reflexivity).
+      rewrite (IHm lvl f (w4 ++ [44]) rest (acc ++ [(denote_all items, v)])); try lia.
+      + rewrite <- app_assoc. reflexivity.
+      + apply kws_app; [apply ws_kws; assumption|]. apply Forall_cons; [auto 6|apply Forall_nil].
+  Qed.
+End Grammar.
+
+Lemma ws_fol : forall w, ws w -> fol w.
+Proof. intros w H. destruct H as [|c w Hc _]; cbn [fol]; [exact I|]. destruct Hc as [ -> | [ -> | [ -> | -> ]]]; auto 8. Qed.
+
+Lemma denotes_len :
+  (forall t v, denotes t v -> (jsize v <= length t)%nat) /\
+  (forall ts l, elems ts l -> (fold_right (fun x a => jsize x + a) 0 l <= length ts)%nat) /\
+  (forall ts l, members ts l -> (fold_right (fun kx a => (let '(_, x) := kx in jsize x) + a) 0 l <= length ts)%nat).
+Proof.
+  apply denotes_mutind; intros; cbn [jsize fold_right length] in *; rewrite ?app_length in *; cbn [length] in *;
+    rewrite ?app_length in *; cbn [length] in *; try lia.
+  match goal with H : int_tok _ _ |- _ => destruct H as [n Hn|] end; [|cbn; lia].
+  destruct (dec_nonempty n Hn) as (c & t' & -> & _). cbn [length]. lia.
+Qed.
+
+(* (3) every text of the grammar (optional BOM, any whitespace around and inside) is accepted with the denoted value *)
+Theorem parse_valid : forall ora t v w1 w2 bom, denotes t v -> depth v <= JBL_MAX_NESTING_LEVEL -> ws w1 -> ws w2 ->
+  bom = [] \/ bom = [239; 187; 191] ->
+  from_json ora (bom ++ w1 ++ t ++ w2) = Ok (Some v).
+Proof.
+  intros ora t v w1 w2 bom Hd Hdep Hw1 Hw2 Hbom. unfold from_json.
+  destruct (grammar_all ora) as [HPd _]. specialize (HPd t v Hd). unfold Pd in HPd.
+  destruct denotes_len as [Hlen _]. specialize (Hlen t v Hd).
+  assert (Hskip : skip_bom (bom ++ w1 ++ t ++ w2) = w1 ++ t ++ w2).
+  { destruct Hbom as [ -> | -> ]; [|reflexivity]. cbn [app]. unfold skip_bom.
+    destruct (denotes_first t v Hd) as (c & t' & -> & Hc).
+    destruct (first_ok_facts ora (fun _ => []) c Hc) as (_ & _ & _ & _ & H239 & _).
+    assert (H0 : at0 (w1 ++ (c :: t') ++ w2) 0 =? 239 = false).
+    { destruct w1 as [|x w1']; cbn [app at0 nth]; [lia|]. inversion Hw1 as [|? ? Hx _]; subst.
+      destruct Hx as [ -> | [ -> | [ -> | -> ]]]; reflexivity. }
+    rewrite H0. reflexivity. }
+  rewrite Hskip.
+  rewrite (HPd 0 (parse_fuel (bom ++ w1 ++ t ++ w2)) w1 w2); try lia; [reflexivity| | |].
+  - apply ws_vws; assumption.
+  - apply ws_fol; assumption.
+  - unfold parse_fuel. rewrite !app_length. lia.
+Qed.
+
+(* ---------- what the printer writes is in the grammar *)
+Section PrintGrammar.
+  Variable fo : Z -> list Z.
+  Variable pf : Z.
+  Notation pitems := (pitems fo pf). Notation pmembers := (pmembers fo pf).
+
+  Lemma rep_ws : forall n, ws (rep 32 n).
+  Proof. intro n. unfold rep. induction (Z.to_nat n); cbn [repeat]; constructor; [left; reflexivity|assumption]. Qed.
+  Lemma ind_ws : forall lvl, ws (ind pf lvl).
+  Proof. intro. unfold ind. destruct (pretty pf); [apply rep_ws|constructor]. Qed.
+  Lemma cind_ws : forall lvl, ws (cind pf lvl).
+  Proof. intro. unfold cind. destruct (pretty pf); [apply rep_ws|constructor]. Qed.
+  Lemma nl_ws : ws (nl pf).
+  Proof. unfold nl. destruct (pretty pf); [apply Forall_cons; [right; right; left; reflexivity|apply Forall_nil]|apply Forall_nil]. Qed.
+  Lemma ws_app : forall a b, ws a -> ws b -> ws (a ++ b).
+  Proof. intros. apply Forall_app. split; assumption. Qed.
+
+  Lemma wjs_grammar : forall k kt, bytes_ok k -> write_json_string pf k = Ok kt ->
+    exists items, Forall item_rfc items /\ kt = 34 :: render_all items ++ [34] /\ denote_all items = k.
+  Proof.
+    intros k kt Hb H. apply wjs_inv in H. destruct H as (body & Hw & ->).
+    destruct (wstr_items (S (length k)) pf k body Hb (Nat.lt_succ_diag_r _) Hw) as (items & Hok & -> & Hd). eauto.
+  Qed.
+
+  Theorem print_in_grammar : forall v lvl t, wf v -> print_node fo pf lvl v = Ok t -> denotes t v.
+  Proof.
+    intro v. induction v as [|b|n|b|s|l IHl|l IHl] using jval_ind2; intros lvl t Hwf Hp.
+    - cbn in Hp. injection Hp as <-. constructor.
+    - destruct b; cbn in Hp; injection Hp as <-; constructor.
+    - cbn [print_node wf] in *. rewrite write_int_dec in Hp by exact Hwf. injection Hp as <-. constructor. constructor. exact Hwf.
+    - destruct Hwf.
+    - cbn [print_node wf] in *. destruct (wjs_grammar s t Hwf Hp) as (items & Hok & -> & <-). constructor. exact Hok.
+    - rewrite print_arr_eq in Hp. destruct (pitems lvl l) as [body|] eqn:Eb; [|discriminate]. injection Hp as <-.
+      destruct l as [|x r].
+      + cbn in Eb. injection Eb as <-. cbn [app]. apply (D_arr0 []). constructor.
+      + assert (He : forall wpre wpost, ws wpre -> ws wpost -> elems (wpre ++ body ++ wpost) (x :: r)).
+        { clear - IHl Hwf Eb. cbn [wf] in Hwf. revert body Eb. generalize dependent x. induction r as [|y r' IHr]; intros x IHl Hwf body Eb wpre wpost Hpre Hpost.
+          - cbn [Text_proofs.pitems] in Eb. apply bind2_inv in Eb. destruct Eb as (a & b & Ha & Hb & ->). injection Hb as <-.
+            inversion IHl as [|? ? Hx _]; subst. cbn [fold_right] in Hwf. destruct Hwf as [Hwx _].
+            cbn [sepc app]. rewrite app_nil_r.
+            replace (wpre ++ (ind pf lvl ++ a ++ nl pf) ++ wpost) with ((wpre ++ ind pf lvl) ++ a ++ (nl pf ++ wpost))
+              by (rewrite <- !app_assoc; reflexivity).
+            apply E_one; [apply ws_app; [assumption|apply ind_ws]|eapply Hx; eauto|apply ws_app; [apply nl_ws|assumption]].
+          - cbn [Text_proofs.pitems] in Eb. apply bind2_inv in Eb. destruct Eb as (a & b & Ha & Hb & ->).
+            inversion IHl as [|? ? Hx Hr]; subst. cbn [fold_right] in Hwf. destruct Hwf as [Hwx Hwr].
+            cbn [sepc].
+            replace (wpre ++ (ind pf lvl ++ a ++ [44] ++ nl pf ++ b) ++ wpost)
+              with ((wpre ++ ind pf lvl) ++ a ++ [] ++ 44 :: (nl pf ++ b ++ wpost))
+              by (rewrite <- !app_assoc; reflexivity).
+            apply E_cons; [apply ws_app; [assumption|apply ind_ws]|eapply Hx; eauto|constructor|].
+            apply (IHr y Hr Hwr b Hb (nl pf) wpost); [apply nl_ws|assumption]. }
+        match goal with |- denotes ?t _ => replace t with (91 :: (nl pf ++ body ++ cind pf lvl) ++ [93])
+          by (cbn [app]; rewrite <- ?app_assoc; reflexivity) end.
+        apply D_arr. apply He; [apply nl_ws|apply cind_ws].
+    - rewrite print_obj_eq in Hp. destruct (pmembers lvl l) as [body|] eqn:Eb; [|discriminate]. injection Hp as <-.
+      destruct l as [|[k x] r].
+      + cbn in Eb. injection Eb as <-. cbn [app]. apply (D_obj0 []). constructor.
+      + assert (He : forall wpre wpost, ws wpre -> ws wpost -> members (wpre ++ body ++ wpost) ((k, x) :: r)).
+        { clear - IHl Hwf Eb. cbn [wf] in Hwf. revert body Eb. generalize dependent x. generalize dependent k.
+          induction r as [|[k2 y] r' IHr]; intros k x IHl Hwf body Eb wpre wpost Hpre Hpost.
+          - cbn [Text_proofs.pmembers] in Eb. destruct (write_json_string pf k) as [kt|] eqn:Ek; [|discriminate].
+            apply bind2_inv in Eb. destruct Eb as (a & b & Ha & Hb & ->). injection Hb as <-.
+            inversion IHl as [|? ? Hx _]; subst. cbn [snd] in Hx. cbn [fold_right] in Hwf. destruct Hwf as [[Hbk Hwx] _].
+            destruct (wjs_grammar k kt Hbk Ek) as (items & Hok & -> & <-).
+            cbn [sepc app]. rewrite app_nil_r.
+            set (w3 := if pretty pf then [32] else [] : list Z).
+            assert (Hw3 : ws w3) by (unfold w3; destruct (pretty pf); [apply Forall_cons; [left; reflexivity|apply Forall_nil]|apply Forall_nil]).
+            match goal with |- members ?tt _ => replace tt
+              with ((wpre ++ ind pf lvl) ++ (34 :: render_all items ++ [34]) ++ [] ++ 58 :: w3 ++ a ++ (nl pf ++ wpost)) end.
+            2: { unfold w3, colon. destruct (pretty pf); repeat (rewrite <- ?app_assoc; cbn [app]; f_equal); reflexivity. }
+            apply M_one; try assumption; [apply ws_app; [assumption|apply ind_ws]|constructor|eapply Hx; eauto|apply ws_app; [apply nl_ws|assumption]].
+          - cbn [Text_proofs.pmembers] in Eb. destruct (write_json_string pf k) as [kt|] eqn:Ek; [|discriminate].
+            apply bind2_inv in Eb. destruct Eb as (a & b & Ha & Hb & ->).
+            inversion IHl as [|? ? Hx Hr]; subst. cbn [snd] in Hx. cbn [fold_right] in Hwf. destruct Hwf as [[Hbk Hwx] Hwr].
+            destruct (wjs_grammar k kt Hbk Ek) as (items & Hok & -> & <-).
+            cbn [sepc].
+            set (w3 := if pretty pf then [32] else [] : list Z).
+            assert (Hw3 : ws w3) by (unfold w3; destruct (pretty pf); [apply Forall_cons; [left; reflexivity|apply Forall_nil]|apply Forall_nil]).
+            match goal with |- members ?tt _ => replace tt
+              with ((wpre ++ ind pf lvl) ++ (34 :: render_all items ++ [34]) ++ [] ++ 58 :: w3 ++ a ++ [] ++ 44 :: (nl pf ++ b ++ wpost)) end.
+            2: { unfold w3, colon. destruct (pretty pf); repeat (rewrite <- ?app_assoc; cbn [app]; f_equal); reflexivity. }
+            apply M_cons; try assumption; [apply ws_app; [assumption|apply ind_ws]|constructor|eapply Hx; eauto|constructor|].
+            apply (IHr k2 y Hr Hwr b Hb (nl pf) wpost); [apply nl_ws|assumption]. }
+        match goal with |- denotes ?t _ => replace t with (123 :: (nl pf ++ body ++ cind pf lvl) ++ [125])
+          by (cbn [app]; rewrite <- ?app_assoc; reflexivity) end.
+        apply D_obj. apply He; [apply nl_ws|apply cind_ws].
+  Qed.
+End PrintGrammar.
